@@ -471,7 +471,17 @@ fn metamorphic(o: &Opts, rep: &mut Report, rng: &mut Rng) {
         let n = if o.thorough() { scn.weight as u64 * 6 } else { scn.weight as u64 };
         for i in 0..n as usize {
             // every template (driving class) is reached for every scenario in every run; parameters are seeded
-            let d = gen_driving(scn, frames, i, rng);
+            // the first drivings of every scenario are directed: one breakpoint address of the scenario at a time, set
+            // for the whole run (a stop at exactly that instruction, whenever the program gets there)
+            let d = if i < scn.bp_addrs.len() {
+                let mut d = Driving::reference(frames, Drain::Every);
+                d.seed = rng.next() >> 16;
+                d.bps = vec![scn.bp_addrs[i]];
+                d.bp_win = (0, frames);
+                d
+            } else {
+                gen_driving(scn, frames, i, rng)
+            };
             let (diff, x, audio) = check_pair(scn, &mut refs, &d);
             rep.eval();
             let class = d.class();
